@@ -59,7 +59,15 @@ class Family:
             return model.fit(ds.X, ds.dim)
         if self.kind == "cross":
             return model.fit(ds.X, ds.Y, ds.dim)
-        return model.fit([ds.X, ds.Y], ds.dim)
+        return model.fit(self.views(ds), ds.dim)
+
+    @staticmethod
+    def views(ds):
+        """multi-set input: two views for plain data sets, three for the list-valued one (another number of
+        views on refit)"""
+        if isinstance(ds.X, list):
+            return [ds.X[0], ds.X[1], ds.Y[0]]
+        return [ds.X, ds.Y]
 
     def transform(self, model, ds, **kw):
         """Always returns a list of DataArrays (one per field)."""
@@ -67,7 +75,7 @@ class Family:
             return [model.transform(ds.X, **kw)]
         if self.kind == "cross":
             return list(model.transform(ds.X, ds.Y, **kw))
-        return list(model.transform([ds.X, ds.Y]))
+        return list(model.transform(self.views(ds)))
 
     def scores(self, model, **kw):
         s = model.scores(**kw)
